@@ -16,6 +16,7 @@ import (
 
 	"github.com/Factom-Asset-Tokens/factom"
 	"github.com/pegnet/pegnet/modules/opr"
+	"github.com/pegnet/pegnetd/config"
 	"github.com/pegnet/pegnetd/fat/fat2"
 	"github.com/pegnet/pegnetd/node/pegnet"
 )
@@ -105,6 +106,22 @@ func confStmtFaults(t *testing.T, snapshotOnly bool) {
 			{"InsertTransactionRelation", func(tx *sqlTxT) error {
 				_, err := d.Pegnet.InsertTransactionRelation(tx, a1, batch.Entry.Hash, 0, true, false)
 				return err
+			}},
+			{"InsertGradeBlock", func(tx *sqlTxT) error {
+				chain := config.OPRChain
+				var keymr, prev factom.Bytes32
+				keymr[0] = 0x77
+				eb := &factom.EBlock{ChainID: &chain, KeyMR: &keymr, PrevKeyMR: &prev, Height: 300500, Sequence: 9}
+				return d.Pegnet.InsertGradeBlock(tx, eb, confGraded{short: []string{"aa", "bb"}})
+			}},
+			{"InsertFCTBurn", func(tx *sqlTxT) error {
+				var burn factom.FactoidTransaction
+				var id factom.Bytes32
+				id[0] = 0x5b
+				burn.TransactionID = &id
+				burn.FactoidTransactionHeader.TimestampSalt = ts
+				burn.FCTInputs = []factom.FactoidTransactionIO{{Address: factom.Bytes32(a0), Amount: 12}}
+				return d.Pegnet.InsertFCTBurn(tx, &id, burn, 300600)
 			}},
 			{"InsertStakingCoinbase", func(tx *sqlTxT) error {
 				txid := "0000000000000000000000000000000000000000000000000000000000300096"
